@@ -8,7 +8,7 @@ Flags of a run: lazy, cache, strategy (schedule), seed, rev (start order variant
 
 Behaviour script (all keys optional):
   step_size (time-based), self_steps {"t" or "t,k": next}, outputs {"t,k": [out_time|None, [attrs]]},
-  default_output [out_time|None, [attrs]], bad {"t,k": ["step"|"time", value]} (malformed reply injection),
+  default_output [out_time|None, [attrs]], none_outputs ["t,k", ...] (steps whose 'po' value is None), bad {"t,k": ["step"|"time", value]} (malformed reply injection),
   set_data {"t,k": [[dest_sim_index, attr, token], ...]} (async set_data issued during that step)
 """
 from __future__ import annotations
@@ -184,6 +184,10 @@ class GSim(mosaik_api_v3.Simulator):
         else:
             ot, attrs = spec
             d = {'e': {a: f'{self.sid}@{self.time}.{self.k}' for a in attrs if a in outputs.get('e', [])}}
+            if _key(self.time, self.k) in b.get('none_outputs', ()):
+                # "no reading": the persistent attribute is produced with the value None
+                for a in d['e']:
+                    if a == 'po': d['e'][a] = None
             if ot is not None: d['time'] = ot
         bad = b.get('bad', {}).get(_key(self.time, self.k))
         if bad and bad[0] == 'time':
@@ -245,7 +249,7 @@ def run_case(case, lazy=True, cache=True, strategy='random', seed=0, script=None
     r = Run()
     CTX.ctrl = ctrl = Controller(strategy, seed, script, fine, instant)
     try:
-        world = build_world(case, cache, rev, debug)
+        world = build_world(case, cache, rev, debug or bool(case.get('debug')))     # a case may ask for World(debug=True)
     except Exception as e:     # ScenarioError etc. while connecting
         r.build_error = e
         return r
